@@ -75,6 +75,7 @@ ASSUMPTIONS = [
     "after everything else (t = 1000 s) and are judged like the others",
 ]
 MIN_COUNTERS = {
+    'rt_main_thread_sends_during_a_long_routine_step': 2,
     'rt_timetags_compared': 400,
     'rt_timetags_compared/nested-bundle': 40,
     'rt_timetags_compared/completion-bundle': 20,
